@@ -603,11 +603,20 @@ func nativeReplay(files []harnessFile, pkgDir string, replayFiles []string) []st
 		var rec replayRec
 		b, _ := os.ReadFile(rf)
 		json.Unmarshal(b, &rec)
-		run := exec.Command(bin, "-test.run", "^TestVerifReplay$", "-test.timeout", "120s", "-test.v")
-		run.Dir = tmp
-		run.Env = append(os.Environ(), "VERIF_REPLAY="+rf)
-		ob, _ := run.CombinedOutput()
-		s := string(ob)
+		var ob []byte
+		var s string
+		// nondeterminism without a program seam (map iteration order, math/rand) is replayed by
+		// bounded retry: the replay confirms as soon as one native run exhibits the violation
+		for attempt := 0; attempt < 40; attempt++ {
+			run := exec.Command(bin, "-test.run", "^TestVerifReplay$", "-test.timeout", "120s", "-test.v")
+			run.Dir = tmp
+			run.Env = append(os.Environ(), "VERIF_REPLAY="+rf)
+			ob, _ = run.CombinedOutput()
+			s = string(ob)
+			if strings.Contains(s, "VERIF-ASSERT-FAIL "+rec.Obligation+"\n") || !strings.Contains(s, "VERIF-REPLAY") || strings.Contains(s, "skipped=true") {
+				break
+			}
+		}
 		switch {
 		case strings.Contains(s, "VERIF-ASSERT-FAIL "+rec.Obligation+"\n"):
 			out[i] = "confirmed"
